@@ -201,14 +201,15 @@ def handle : List String → String
       ";".intercalate (ts.map (fun τ => toString τ ++ "=" ++ ",".intercalate ((dictGet ds.prims τ).map (·.name))
         ++ "/" ++ ",".intercalate ((dictGet ds.terms τ).map (·.name))))
     | none => "bad-op"
-  | "slim" :: key :: maxv :: rest =>
+  | "slim" :: key :: maxv :: npos :: rest =>
+    -- npos = how many of the operator's trees are passed positionally
     match (do
-      let k ← parseKey key; let m ← parseNat maxv
+      let k ← parseKey key; let m ← parseNat maxv; let np ← parseNat npos
       let (opToks, tape) ← dropLast rest
       let (args, op) ← parseOp opToks
       let tp ← parseTape tape
-      pure (k, m, args, op, tp)) with
-    | some (k, m, args, op, tp) => showMany (staticLimit k m op args tp)
+      pure (k, m, np, args, op, tp)) with
+    | some (k, m, np, args, op, tp) => showMany (staticLimit k m np op args tp)
     | none => "bad-op"
   | toks =>
     match (do
